@@ -987,9 +987,9 @@ func genCase(r *Rng, maxTr int) Sx {
 
 func gen(r *Rng, tier string, emit func(Sx)) {
 	r = NewRng(r.U64())
-	n, maxTr := 260, 60
+	n, maxTr := 1500, 60
 	if tier == "thorough" {
-		n, maxTr = 2600, 200
+		n, maxTr = 15000, 200
 	}
 	for i := 0; i < n; i++ {
 		m := maxTr
